@@ -84,3 +84,45 @@ def classify(vlist):
     if vlist:
         return ("undecided", vlist[0][1], vlist[0][0], len(vlist))
     return ("ok",)
+
+
+# --------------------------------------------------------------------------------------------
+# independent projection of assembly JSON items (as read from an input or an emitted file) to the EVM.tla form
+
+PSEUDO = {"PUSH [tag]": "PUSHTAG", "PUSH #[$]": "PUSHSUBSIZE", "PUSH [$]": "PUSHSUB", "PUSH data": "PUSHDATA",
+          "PUSHLIB": "PUSHLIB", "PUSHDEPLOYADDRESS": "PUSHDEPLOYADDRESS", "PUSHSIZE": "PUSHSIZE",
+          "PUSHIMMUTABLE": "PUSHIMMUTABLE"}
+
+
+def _derived(kind, value, nbytes):
+    import hashlib
+    if value is None:
+        canon = ""
+    else:
+        try:
+            canon = str(int(str(value), 10 if kind == "PUSH [tag]" else 16))
+        except ValueError:
+            canon = str(value)
+    return list(hashlib.sha256(("%s|%s" % (kind, canon)).encode()).digest()[:nbytes])
+
+
+def item_to_instr(it):
+    n = it["name"]
+    v = it.get("value")
+    out = {"op": n, "k": 0, "w": [], "name": n, "value": "" if v is None else str(v)}
+    if n == "PUSH":
+        try:
+            out["w"] = common.word_bytes(int(str(v), 16))
+        except Exception:
+            out["op"] = "BADPUSH"
+    elif n in PSEUDO:
+        out["op"] = PSEUDO[n]
+        # a library is identified by its name in a file (the tool's internal per-block index is not visible here)
+        out["w"] = _derived(n, v, 20 if n in ("PUSHLIB", "PUSHDEPLOYADDRESS") else 32)
+    elif n == "ASSIGNIMMUTABLE":
+        out["w"] = _derived(n, v, 32)
+    elif n.startswith("DUP") and n[3:].isdigit():
+        out["op"], out["k"] = "DUP", int(n[3:])
+    elif n.startswith("SWAP") and n[4:].isdigit():
+        out["op"], out["k"] = "SWAP", int(n[4:])
+    return out
